@@ -9,6 +9,7 @@ package main
 
 import (
 	"fmt"
+	"iter"
 	"math/rand"
 	"strconv"
 
@@ -147,11 +148,18 @@ func nn(a []int) []int {
 }
 
 func collectCanon(seq []byte, k int) (items [][]int, panicked bool) {
+	var it iter.Seq[[]byte]
+	if p, _ := catch(func() { it = sequtil.CanonicalSubsequences(seq, k) }); p {
+		return [][]int{}, true
+	}
+	return collectCanonIt(it)
+}
+
+func collectCanonIt(it iter.Seq[[]byte]) (items [][]int, panicked bool) {
 	items = [][]int{}
 	panicked, _ = catch(func() {
 		// the iterator VALUE is used three times: a full pass, a pass broken off after one item, and the pass that is
 		// recorded - an iter.Seq must give the same items every time it is ranged over
-		it := sequtil.CanonicalSubsequences(seq, k)
 		for range it {
 		}
 		for range it {
@@ -209,17 +217,31 @@ func seqCall(r seqReq) any {
 		seq := unints(r.Seq)
 		// the same buffer held other content of the same length a moment ago (a read buffer that is filled again): a complete pass
 		// over that content first, then the buffer gets the content of this request
+		// ... and the iterator value itself is obtained while the buffer still holds the other content (an iter.Seq is a recipe: it is
+		// the sequence at the time of the pass that counts)
+		var early iter.Seq[[]byte]
 		if len(seq) > 0 {
 			for i, c := range seq {
 				seq[i] = "CGTA"[(int(c)+i)%4]
 			}
 			catch(func() {
+				early = sequtil.CanonicalSubsequences(seq, r.K)
 				for range sequtil.CanonicalSubsequences(seq, r.K) {
+				}
+				if len(seq)%4 == 1 { // ... and has already been ranged over once over that content
+					for range early {
+					}
 				}
 			})
 			copy(seq, unints(r.Seq))
 		}
-		items, p := collectCanon(seq, r.K)
+		var items [][]int
+		var p bool
+		if early != nil && len(seq)%2 == 1 {
+			items, p = collectCanonIt(early)
+		} else {
+			items, p = collectCanon(seq, r.K)
+		}
 		return evCanon{Op: r.Op, Seq: nn(r.Seq), K: r.K, Panic: p, Items: items, SeqAfter: ints(seq)}
 	case "canonpair":
 		seq := unints(r.Seq)
